@@ -311,6 +311,24 @@ def rule_R11_2(ctx):
                 r.ok()
             else:
                 r.unproven.append("%s: %s not tied to a `get` miss" % (f.path, variant))
+            # range reads: every success exit of the function is behind the
+            # hit edge of that lookup (no shortcut around the bounds test)
+            if ok and variant.startswith("Range") and not f.is_closure:
+                cp = f.canon(info["place"])
+                some_t = dict(info["cases"]).get("Some")
+                if some_t is not None:
+                    exits = [(b2, sp2) for b2, i2, pl2, kd2, ao2, sp2 in f.aggregates("std::result::Result", "Ok")
+                             if pl2[0] == 0]
+                    bypass = [(b2, sp2) for b2, sp2 in exits if not f.dominates(some_t, b2)]
+                    r.inst("%s: %d success exit(s), %d not behind the bounds lookup" % (f.path, len(exits), len(bypass)))
+                    if exits and not bypass:
+                        r.ok()
+                    elif bypass:
+                        r.fail("%s | success exit bypasses the bounds lookup" % f.path,
+                               "%s can return a range read successfully without "
+                               "the bounds lookup having succeeded: some "
+                               "out-of-range bounds are accepted" % f.path,
+                               where=mir.span_loc(bypass[0][1]))
     r.require_floor("out-of-bounds read errors", n, 4)
     return r
 
